@@ -175,6 +175,41 @@ func execSeq(t *testing.T, plan *Plan, h seqHooks) *Outcome {
 					}
 					// commits of other tasks (expiry passes) are applied to the model in commit order
 					var want model.Res
+					if op.K == "s.txn" || op.K == "s.with" {
+						// a session transaction: the calls of its body run against a private copy, which replaces the
+						// state if (and only if) the commit succeeded
+						if len(c.Commits) > 0 {
+							e.syncModel(st, c.Commits[0])
+						}
+						work := st.Clone()
+						var mismatch *Violation
+						for _, sub := range c.Subs {
+							w := applyModel(work, sub.Op, &sub.Res, now, nil)
+							if d := diffRes(sub.Op.K, w, sub.Res); d != "" && mismatch == nil {
+								mismatch = attribute(h.prop, "result-mismatch", sub.Op, w, sub.Res, fmt.Sprintf("inside a transaction, %s: %s (impl error: %v)", opStr(sub.Op), d, sub.Err))
+							}
+						}
+						if c.TxnOK {
+							*st = *work
+						}
+						e.syncModel(st, -1)
+						if mismatch == nil {
+							if d := compareState(st, after); d != "" {
+								mismatch = attribute(h.prop, "state-mismatch", op, model.Res{}, model.Res{}, fmt.Sprintf("after %s (committed=%v): %s", opStr(op), c.TxnOK, d))
+							}
+						}
+						if mismatch != nil {
+							e.violate(mismatch)
+							if mismatch.Prop == h.prop {
+								return
+							}
+							*st = *modelFromCatalog(after)
+						}
+						if h.after != nil {
+							h.after(e, st, op, c, before, after)
+						}
+						continue
+					}
 					if len(c.Commits) > 0 {
 						e.syncModel(st, c.Commits[0])
 						want = applyModel(st, op, &c.Res, now, lastIDOf(after, op))
